@@ -378,17 +378,19 @@ def reduce_to(text, f):
 
 
 # ----------------------------------------------------------------------------- observation
-def classify(r):
+def classify(r, ampl=True):
     """outcome class of a recsolver run: ('ok', ...) | ('err', kind)"""
     evs = [e.get('ev') for e in r['log']]
     sol = r['sol'] or ''
-    if r['rc'] != 0 or r['sol'] is None:
+    # without -AMPL an error raised before `wantsol=1` is parsed leaves no .sol: the diagnosis is on stdout
+    early = ampl is False and r['sol'] is None and 'begin' not in evs and r['rc'] == 0
+    if (r['rc'] != 0 or r['sol'] is None) and not early:
         return ('crash', 'rc=%s sol=%s stderr=%s' % (r['rc'], r['sol'] is not None, r['err'][-300:]))
     if 'begin' in evs:
         if 'end' not in evs:
             return ('crash', 'model delivery not finished')
         return ('ok', None)
-    msg = sol.split('\nOptions\n')[0]
+    msg = r['out'] if early else sol.split('\nOptions\n')[0]
     if re.search(r'Invalid value "?-?\d+"? for option "objno", expected value between', msg):
         return ('err', 'objnoOutOfRange')
     if re.search(r'Invalid value "?-?\d+"? for option "(obj:no|obj:multi)"', msg):
@@ -505,14 +507,17 @@ def sol_objno(sol):
 
 # ----------------------------------------------------------------------------- a case
 class Case:
-    def __init__(self, cid, text, binary, row, col, optlist, envopts, argv, quadobj, note, mutation, model=None):
+    def __init__(self, cid, text, binary, row, col, optlist, envopts, argv, quadobj, note, mutation, model=None,
+                 mpopts=None, ampl=True):
         self.cid, self.text, self.binary, self.row, self.col = cid, text, binary, row, col
         self.optlist, self.envopts, self.argv, self.quadobj = optlist, envopts, argv, quadobj
         self.note, self.mutation, self.model = note, mutation, model
+        self.mpopts, self.ampl = mpopts, ampl     # mp_options env var (parsed first); -AMPL flag or wantsol=1
 
     def replay_obj(self):
         return {'nl_text': self.text, 'binary_format': self.binary, 'row': self.row, 'col': self.col,
-                'options_in_order': self.optlist, 'env_recsolver_options': self.envopts, 'argv_options': self.argv,
+                'options_in_order': self.optlist, 'env_mp_options': self.mpopts, 'env_recsolver_options': self.envopts,
+                'argv_options': self.argv, 'ampl_flag': self.ampl,
                 'RECSOLVER_QUADOBJ': self.quadobj, 'RECSOLVER_ACCEPT': 'ALL', 'stream': self.note,
                 'how': './check C12 --replay <this file>   (writes the stub under build/c12/replay and runs harness/recsolver on it)'}
 
@@ -531,7 +536,9 @@ def run_case(exe, wdir, c, suffix=''):
     write_stub(stub, c.text, c.binary, c.row, c.col)
     env = {'recsolver_options': c.envopts} if c.envopts is not None else {}
     env[os.path.basename(exe) + '_options'] = c.envopts or ''
-    r = recsolver.run(exe, stub, c.argv, accept='ALL', quadobj=c.quadobj, env=env, timeout=120)
+    env['mp_options'] = c.mpopts or ''
+    argv = list(c.argv) if c.ampl else ['wantsol=1'] + list(c.argv)
+    r = recsolver.run(exe, stub, argv, accept='ALL', quadobj=c.quadobj, env=env, timeout=120, ampl_flag=c.ampl)
     for ext in ('.nl', '.row', '.col', '.sol', '.reclog'):
         try:
             os.remove(stub + ext)
@@ -581,7 +588,7 @@ def points(rng, bounds, cnt):
 def judge(ck, c, r, mline, stats, rng):
     """compare implementation / Lean model / property oracle for one case; returns canonical impl line"""
     fv = FileView(c.text)
-    cls = classify(r)
+    cls = classify(r, c.ampl)
     exp = expected_from_options(c.optlist, fv.n)
     if exp[0] == 'ok' and fv.bad_index():
         exp = ('err', 'readError')
@@ -603,6 +610,7 @@ def judge(ck, c, r, mline, stats, rng):
             ck.add_violation(sig, 'options %s on a file with %d objectives: run refused (%s) although the selection is valid' % (c.optlist, fv.n, cls[1]), rep)
         elif exp[1] != cls[1]:
             ck.add_violation('reject:wrong-error-class', 'expected error class %s, implementation reported %s' % (exp[1], cls[1]), rep)
+        stats['cmp'] += 1
         if mline != impl_line:
             ck.add_violation('corr:outcome', 'Lean model says "%s", implementation "%s"' % (mline[:80], impl_line), dict(rep, correspondence='drv_c12 vs recsolver'), found_input=False)
         return impl_line
@@ -740,9 +748,14 @@ def option_plans(rng, n, tier):
         for kind, v in items:
             name = rng.choice(['objno', 'obj:no']) if kind == 'o' else rng.choice(['multiobj', 'obj:multi'])
             strs.append('%s=%d' % (name, v))
-        split = rng.below(len(strs) + 1) if rng.chance(1, 3) else 0     # first `split` options via the environment
-        env = ' '.join(strs[:split]) if split else None
-        out.append((items, env, strs[split:]))
+        # channels in the order the driver applies them: mp_options, recsolver_options, command line
+        a = b = 0
+        if rng.chance(1, 3):
+            b = rng.below(len(strs) + 1)
+            a = rng.below(b + 1) if rng.chance(1, 2) else 0
+        mp = ' '.join(strs[:a]) if a else None
+        env = ' '.join(strs[a:b]) if b > a else None
+        out.append((items, env, strs[b:], mp, not rng.chance(1, 6)))
     return out
 
 
@@ -791,7 +804,7 @@ def run(ck):
     nfiles = 80 if ck.tier == 'quick' else 800
     maxobj = 4 if ck.tier == 'quick' else 6
     stats = {'outcome': {}, 'objkind': {}, 'auxcon': {}, 'cmp': 0, 'nobj_hist': {}, 'mutation': {}, 'format': {'text': 0, 'binary': 0},
-             'k_class': {}, 'multi': {}, 'reduced_runs': 0, 'text_vs_binary_runs': 0, 'expr_ops': {}}
+             'k_class': {}, 'multi': {}, 'channel': {}, 'reduced_runs': 0, 'text_vs_binary_runs': 0, 'expr_ops': {}}
     cases = []
     cid = 0
     for text, row, col, opts, note, mutation in corpus_cases():
@@ -820,10 +833,10 @@ def run(ck):
         fmt = rng.below(10)
         formats = [False, True] if fmt < 2 else [True] if fmt < 5 else [False]
         quadobj = 0 if rng.chance(1, 4) else 1
-        for items, env, argv in option_plans(rng, n, ck.tier):
+        for items, env, argv, mp, ampl in option_plans(rng, n, ck.tier):
             first = None
             for binary in formats:
-                c = Case(cid, text, binary, row, col, items, env, argv, quadobj, note, mutation, model=m); cid += 1
+                c = Case(cid, text, binary, row, col, items, env, argv, quadobj, note, mutation, model=m, mpopts=mp, ampl=ampl); cid += 1
                 cases.append(c)
                 if first is None:
                     first = c
@@ -860,6 +873,8 @@ def run(ck):
         il = judge(ck, c, r, ml, stats, rng)
         impl_lines.append(il)
         stats['format']['binary' if c.binary else 'text'] += 1
+        ch = ('mp_options+' if c.mpopts else '') + ('solver_options+' if c.envopts else '') + ('argv' if c.argv else '') + ('' if c.ampl else ' wantsol')
+        stats['channel'][ch] = stats['channel'].get(ch, 0) + 1
         ex = expected_from_options(c.optlist, FileView(c.text).n)
         kc = 'invalid' if ex == ('err', 'invalidOption') else 'beyond' if ex[0] == 'err' else \
             ('default' if not any(k == 'o' for k, _ in c.optlist) else 'zero' if ex[1] == [] and any(k == 'o' and v == 0 for k, v in c.optlist) else 'given')
@@ -881,7 +896,7 @@ def run(ck):
         else:
             stats['reduced_runs'] += 1
             ra = by_id[a.cid]
-            if classify(ra)[0] != 'ok':
+            if classify(ra, a.ampl)[0] != 'ok':
                 continue
             if strip(ra['log']) != strip(rb['log']):
                 la, lb = strip(ra['log']), strip(rb['log'])
@@ -899,7 +914,7 @@ def run(ck):
     ck.cov['distinct_nontrivial'] = distinct
     ck.cov['rule'] = 'distinct (NL file, format, option sequence) triples run through the real driver and compared with the Lean model and the oracle'
     ck.cov['exhaustive'] = False
-    ck.cov['generator_histogram'] = {k: stats[k] for k in ('outcome', 'objkind', 'auxcon', 'nobj_hist', 'mutation', 'format', 'k_class', 'multi', 'expr_ops')}
+    ck.cov['generator_histogram'] = {k: stats[k] for k in ('outcome', 'objkind', 'auxcon', 'nobj_hist', 'mutation', 'format', 'k_class', 'multi', 'channel', 'expr_ops')}
     ck.cov['reduced_file_runs'] = stats['reduced_runs']
     ck.cov['text_vs_binary_pairs'] = stats['text_vs_binary_runs']
     ck.log('histogram: ' + json.dumps(ck.cov['generator_histogram'], sort_keys=True))
@@ -934,14 +949,15 @@ def replay(ck, path):
     wdir = os.path.join(BUILD, 'c12', 'replay')
     os.makedirs(wdir, exist_ok=True)
     c = Case(0, rp['nl_text'], rp['binary_format'], rp['row'], rp['col'], [tuple(t) for t in rp['options_in_order']],
-             rp['env_recsolver_options'], rp['argv_options'], rp['RECSOLVER_QUADOBJ'], rp.get('stream', ''), 'replay')
+             rp['env_recsolver_options'], rp['argv_options'], rp['RECSOLVER_QUADOBJ'], rp.get('stream', ''), 'replay',
+             mpopts=rp.get('env_mp_options'), ampl=rp.get('ampl_flag', True))
     r = run_case(exe, wdir, c)
     ml = FileView(c.text).model_line(c.optlist)
     p = subprocess.run([drv], input=ml + '\n', capture_output=True, text=True)
     stats = {'outcome': {}, 'objkind': {}, 'auxcon': {}, 'cmp': 0}
     il = judge(ck, c, r, p.stdout.strip(), stats, nlgen.Rng(ck.seed))
-    print('options (in order):', c.optlist, '| env:', c.envopts, '| argv:', c.argv, '| format:', 'binary' if c.binary else 'text')
-    print('implementation :', il, '| outcome', classify(r))
+    print('options (in order):', c.optlist, '| mp_options:', c.mpopts, '| recsolver_options:', c.envopts, '| argv:', c.argv, '| -AMPL:', c.ampl, '| format:', 'binary' if c.binary else 'text')
+    print('implementation :', il, '| outcome', classify(r, c.ampl))
     print('objective events:', [json.dumps(e) for e in r['log'] if e.get('ev') == 'obj'])
     print('.sol objno line :', sol_objno(r['sol']))
     print('Lean model      :', p.stdout.strip())
